@@ -14,6 +14,20 @@ pub fn ident(i: &Ident) -> String {
 }
 
 fn ident_tagged(i: &Ident) -> String {
+    // function parameters are stored under "<parameter>.<function>.<suffix>"
+    let raw = ident(i);
+    if raw.contains('.') {
+        let base = raw.split('.').next().unwrap_or("");
+        let suffix = raw.rsplit('.').next().unwrap_or("");
+        let letter = match i {
+            Ident::Plain(_) => 'p',
+            Ident::String(_) => 's',
+            Ident::Single(_) => 'f',
+            Ident::Double(_) => 'd',
+            Ident::Integer(_) => 'i',
+        };
+        return format!("{}:param:{}{}", letter, base, suffix);
+    }
     match i {
         Ident::Plain(s) => format!("p:{}", s),
         Ident::String(s) => format!("s:{}", s),
